@@ -18,6 +18,11 @@ def main():
     ap.add_argument('--replay', default=None)
     a = ap.parse_args()
     if a.pid == 'setup':
+        import trace_kernels
+        rep = trace_kernels.regenerate(validate=False)
+        for f, r in rep.items():
+            if not r['ok']:
+                print('trace translator failed on %s: %s' % (f, r['errors']))
         ok, log = common.coq_build()
         print(log[-2000:])
         sys.exit(0 if ok else 1)
